@@ -476,9 +476,65 @@ def legacy_noop_remove_case(case):
     return dict(reproduced=bool(violated), violated=violated[:8])
 
 
+def trait_added_filtered_case(case):
+    """C08: a filtered observer (metadata / match) followed by a further link, with traits added after hook-up: every object
+    is hooked exactly once however many matching traits are added later -- a detached object stops calling the handler."""
+    from traits.api import HasTraits, Instance, Int
+    from traits.observation.api import match, trait, parse
+    violated = []
+
+    class Child(HasTraits):
+        value = Int()
+
+    class Parent(HasTraits):
+        first = Instance(Child, watched=True)
+        second = Instance(Child, watched=True)
+        ignored = Instance(Child)
+    for label, expr in (("match", lambda: match(lambda name, t: t.watched is True, notify=False).then(trait("value"))), ("metadata", lambda: parse("+watched:value"))):
+        for n_added in (1, 2):
+            p = Parent(first=Child(), second=Child(), ignored=Child())
+            events = []
+
+            def handler(event):
+                events.append((id(event.object), event.name, event.new))
+            e = expr()
+            p.observe(handler, e)
+            added = []
+            for i in range(n_added):
+                nm = "extra%d" % i
+                p.add_trait(nm, Instance(Child, watched=True))
+                setattr(p, nm, Child())
+                added.append(nm)
+
+            def poke(c, should, what):
+                del events[:]
+                c.value += 1
+                want = 1 if should else 0
+                if len(events) != want:
+                    violated.append("%s, %d trait(s) added later: %s.value changed, handler called %d time(s), expected %d" % (label, n_added, what, len(events), want))
+            for nm in ("first", "second") + tuple(added):
+                poke(getattr(p, nm), True, nm)
+            poke(p.ignored, False, "ignored")
+            old_first, old_second = p.first, p.second
+            p.first = Child()
+            p.second = Child()
+            poke(old_first, False, "detached old first")
+            poke(old_second, False, "detached old second")
+            poke(p.first, True, "new first")
+            old_extra = getattr(p, added[0])
+            setattr(p, added[0], Child())
+            poke(old_extra, False, "detached old " + added[0])
+            poke(getattr(p, added[0]), True, "new " + added[0])
+            p.observe(handler, e, remove=True)
+            for nm in ("first", "second") + tuple(added):
+                poke(getattr(p, nm), False, nm + " after removal")
+            poke(old_first, False, "old first after removal")
+    return dict(reproduced=bool(violated), violated=violated[:8])
+
+
 def main():
     case = json.loads(sys.stdin.read())
-    out = {"atomic": atomic_case, "reachability": reachability_case, "legacy": legacy_case, "falsy_root": falsy_root_case, "equal_targets": equal_targets_case, "legacy_noop_remove": legacy_noop_remove_case}[case["family"]](case)
+    out = {"atomic": atomic_case, "reachability": reachability_case, "legacy": legacy_case, "falsy_root": falsy_root_case, "equal_targets": equal_targets_case, "legacy_noop_remove": legacy_noop_remove_case, "trait_added_filtered": trait_added_filtered_case}[case["family"]](case)
     print(json.dumps(out, default=repr))
 
 
